@@ -749,6 +749,19 @@ def gen_grid_cases(chunk):
                 g = voxel.VoxelGrid(make_base(enc, kind, arr), transform=mat4(M4, t4))
                 return {"count": int(g.filled_count), "vol64": int(snap([g.volume], 64)[0])}
             add(base, vol)
+        elif what == "binvox_points":
+            _, shape, data, kind, M4, t4, order = item
+            arr = np.array(data, dtype=bool).reshape(shape)
+            base = {"fn": "grid_binvox_points", "shape": list(shape), "data": list(data), "base": kind,
+                    "M4": [ints(r) for r in M4], "t4": list(t4), "axis_order": order}
+
+            def rtp():
+                g = voxel.VoxelGrid(make_base(enc, kind, arr), transform=mat4(M4, t4))
+                g2 = trimesh.exchange.binvox.load_binvox(io.BytesIO(g.export(file_type="binvox", axis_order=order)),
+                                                         axis_order=order)
+                pts = g2.indices_to_points(np.argwhere(np.asarray(g2.matrix)))
+                return {"rshape": [int(s) for s in g2.shape], "rpoints4": [ints(p) for p in snap(pts, 4)]}
+            add(base, rtp)
         else:
             _, shape, data, kind, L4, t4, order = item
             arr = np.array(data, dtype=bool).reshape(shape)
@@ -807,6 +820,12 @@ def grid_work(tier):
                 kinds = BASES if (big or size <= 8 and ai % 4 == 0) else [BASES[ai % 4]]
                 for kind in kinds:
                     work.append(("binvox", shape, data, kind, L4, [4, -2, 9] if ai % 2 else [0, 0, 0], order))
+    # mirrored grids (negative scale on some axes): world positions of the filled cells must survive
+    arrays = list(itertools.product((0, 1), repeat=8))
+    for ai, data in enumerate(arrays if big else arrays[seed() % 4::4]):
+        for signs in ((-1, 1, 1), (1, -1, -1), (-1, -1, -1), (1, 1, 1)):
+            M4 = np.diag([4 * x for x in signs])
+            work.append(("binvox_points", (2, 2, 2), data, "dense", M4, [4, 0, -8], ("xzy", "xyz")[ai % 2]))
     return work
 
 
@@ -922,6 +941,11 @@ def attribute_grid(c, clause):
             return ["BinvoxNonCubicXzyAssert"]
         if c.get("via") == "sparse_indices" and not any(c["data"]) and clause == "raised_TypeError":
             return ["RleToSparseEmptyReturnsLists"]
+        if c["base"] in ("rle", "brle") and c["axis_order"] == "xyz" and clause == "raised_ValueError":
+            return ["RunLengthDataDtypeNotHonoured"]   # run_length_data(dtype=uint8) comes back int64
+    if c["fn"] == "grid_binvox_points" and clause == "binvox_filled_cells_keep_their_position" and \
+            any(c["M4"][a][a] < 0 for a in range(3)):
+        return ["BinvoxNegativeScaleTranslation"]
     return []
 
 
@@ -987,7 +1011,7 @@ def main(argv):
             if q is not None:
                 detail["read"] = q
         else:
-            dev = attribute_fn(c, clause) if c["fn"] not in ("grid_maps", "grid_volume", "grid_binvox") else attribute_grid(c, clause)
+            dev = attribute_fn(c, clause) if not c["fn"].startswith("grid_") else attribute_grid(c, clause)
             detail = {k: v for k, v in c.items() if k != "id"}
             name = c["fn"]
         dev = report(V, name, clause, detail, dev)
